@@ -17,7 +17,7 @@ fn err_key(e: &Error) -> String {
 impl Property for C11 {
     fn id(&self) -> &'static str { "C11" }
     fn rule(&self) -> String {
-        "Rule lists (1-3 groups of 1-2 full-grammar rules, rich in alphas and variables — the state that could leak between words) and 2-8 generated words; in 20% of the cases one word is unparseable (stray `*`, diacritic first, tone too long) and the list may contain a word on which a rule raises a runtime error. \
+        "Rule lists (1-3 groups of 1-2 full-grammar rules, rich in alphas and variables — the state that could leak between words) and 2-8 generated words (one list in four also holds the same word twice in two notations, plain IPA and Americanist letters, adjacent or apart; one in six an exact repeat); in 20% of the cases one word is unparseable (stray `*`, diacritic first, tone too long) and the list may contain a word on which a rule raises a runtime error. \
          Oracle (public API only): every word is first run alone; then the whole list, its reversal, a rotation and a sublist are run: result length == number of lines and entry i == the singleton result of that line, whenever every word succeeds; a line `u v` gives `run(u) + ' ' + run(v)`; \
          if some singleton fails, the list run fails with the error (variant; for word syntax errors also the word text) of the first failing word in phase order: all words are parsed before any rule is applied, so word syntax errors come first, then rule syntax, then the first word whose application fails. \
          Non-trivial: at least two words changed, differently from each other. Quick 600k, thorough 8M.".into()
@@ -28,6 +28,7 @@ impl Property for C11 {
             let nw = 2 + t.pick(7);
             let mut words = vec![]; let mut segs = vec![];
             for _ in 0..nw { let p = if t.chance(1, 4) { WordProfile::RICH } else { WordProfile::PLAIN }; let w = gen_word(t, p).text(); if let Ok(Ok(pw)) = api::parse_word(&w) { segs.extend(word_segs(&pw)); } words.push(w); }
+            add_twin_words(t, &mut words);
             if t.chance(1, 5) { let i = t.pick(words.len()); let bad = ["*a", "ʰa", "pa123456", "pa::ːq‼x", "a%"][t.pick(5)]; words[i] = bad.to_string(); }
             let ng = 1 + t.weighted(&[5, 3, 1]);
             let mut groups = vec![];
@@ -62,7 +63,8 @@ impl Property for C11 {
             }
         }
         // phrases: a line of two words
-        if n >= 2 && singles[0].is_ok() && singles[1].is_ok() {
+        // (not when a rule deleted a whole word: an empty word is C08's business, and what a phrase prints for it is not defined by the property)
+        if n >= 2 && singles[0].is_ok() && singles[1].is_ok() && !singles[0].as_ref().unwrap()[0].is_empty() && !singles[1].as_ref().unwrap()[0].is_empty() {
             let line = format!("{} {}", words[0], words[1]);
             match run(&[line.clone()]) {
                 Ok(Ok(v)) => { let want = format!("{} {}", singles[0].as_ref().unwrap()[0], singles[1].as_ref().unwrap()[0]); if v.len() != 1 || v[0] != want { return Outcome::fail("a phrase is not the space-joined result of its words", json!({"line": line, "got": v, "expected": want, "groups": case["groups"]})) } }
